@@ -11,6 +11,8 @@ import (
 	"fmt"
 	"hash/fnv"
 	"os"
+	"regexp"
+	"runtime"
 	"runtime/debug"
 	"sort"
 	"strings"
@@ -27,6 +29,7 @@ type Violation struct {
 	// where in the enumeration it was found: lets the driver re-run the same shard up to this case when the case
 	// alone does not reproduce (behaviour that depends on what the process did before)
 	Shard   int   `json:"shard"`
+	From    int64 `json:"from"` // case index at which the worker process that found it started (a process restarted after a hang or crash does not start at 0)
 	NShards int   `json:"nshards"`
 	Idx     int64 `json:"idx"`
 }
@@ -47,6 +50,7 @@ type Ctx struct {
 	curCase    json.RawMessage
 	capHit     bool
 	deadline   time.Time
+	from       int64
 	shard, n   int
 	curIdx     int64
 }
@@ -118,17 +122,21 @@ func (c *Ctx) Violate(sig, detail string, cs any) {
 	if len(detail) > 4000 {
 		detail = detail[:4000] + "…"
 	}
-	c.violations = append(c.violations, Violation{Sig: sig, Detail: detail, Case: raw, Shard: c.shard, NShards: c.n, Idx: c.curIdx})
+	c.violations = append(c.violations, Violation{Sig: sig, Detail: detail, Case: raw, Shard: c.shard, NShards: c.n, Idx: c.curIdx, From: c.from})
 }
 
 // ---- registry ------------------------------------------------------------
 
 type Meta struct {
-	LongCases   bool     `json:"long_cases,omitempty"` // a case is a whole search partition: the per-case watchdog does not apply (the soft deadline does)
-	ID          string   `json:"id"`
-	Level       string   `json:"level"` // exploration | model_checking
-	Rule        string   `json:"rule"`
-	Assumptions []string `json:"assumptions"`
+	LongCases bool `json:"long_cases,omitempty"` // a case is a whole search partition: the per-case watchdog does not apply (the soft deadline does)
+	// HangIsViolation: the property promises that the call returns (a report or an error). A case that exceeds the
+	// watchdog while a goroutine has been parked for more than a minute in a lock/channel wait inside the library, with
+	// no goroutine running, is then a violation ("[hang]"), not merely a skipped case.
+	HangIsViolation bool     `json:"hang_is_violation,omitempty"`
+	ID              string   `json:"id"`
+	Level           string   `json:"level"` // exploration | model_checking
+	Rule            string   `json:"rule"`
+	Assumptions     []string `json:"assumptions"`
 }
 
 type checkDef struct {
@@ -174,7 +182,9 @@ type WorkerOut struct {
 	Notes      []string         `json:"notes"`
 	CapHit     bool             `json:"cap_hit"`
 	Done       bool             `json:"done"`
-	HangAt     int64            `json:"hang_at"` // case index that exceeded the watchdog, -1 if none
+	HangAt     int64            `json:"hang_at"`               // case index that exceeded the watchdog, -1 if none
+	HangFrame  string           `json:"hang_frame,omitempty"`  // library function a goroutine has been parked in for > 1 minute (empty: busy or not in the library)
+	HangStacks string           `json:"hang_stacks,omitempty"` // goroutine dump taken by the watchdog
 	LastIdx    int64            `json:"last_idx"`
 }
 
@@ -234,12 +244,43 @@ func Main(args []string) int {
 		fmt.Sscan(args[2], &d)
 		fmt.Print(C06Once(p, d))
 		return 0
+	case "c09once":
+		var p, l int
+		fmt.Sscan(args[1], &p)
+		fmt.Sscan(args[2], &l)
+		fmt.Print(C09ConfOnce(p, l))
+		return 0
 	case "racepass":
 		rounds := 4
 		if len(args) > 1 {
 			fmt.Sscan(args[1], &rounds)
 		}
 		RacePass(rounds)
+		return 0
+	case "count":
+		// count ID tier: number of cases the generator emits, grouped by the case's kind/family field (development aid)
+		def := registry[args[1]]
+		if def == nil {
+			fmt.Fprintln(os.Stderr, "unknown check", args[1])
+			return 2
+		}
+		per := map[string]int64{}
+		var total int64
+		def.gen(args[2], func(cs any) {
+			total++
+			raw, _ := json.Marshal(cs)
+			var m map[string]any
+			json.Unmarshal(raw, &m)
+			k := ""
+			for _, f := range []string{"kind", "fam", "family", "axis", "pass", "Kind", "Fam"} {
+				if s, ok := m[f].(string); ok {
+					k = s
+					break
+				}
+			}
+			per[k]++
+		})
+		fmt.Println(args[1], args[2], "cases:", total, per)
 		return 0
 	case "list":
 		ids := []string{}
@@ -274,6 +315,17 @@ func Main(args []string) int {
 		}
 		c := newCtx(args[2])
 		c.curCase = rf.Case
+		if !def.meta.LongCases {
+			go func() {
+				time.Sleep(20 * time.Second)
+				runtime.GC() // stamps the wait time of parked goroutines (see the run mode's watchdog)
+				time.Sleep(time.Duration(WatchdogSeconds-20) * time.Second)
+				st := allStacks()
+				out, _ := json.Marshal(map[string]any{"hang": true, "hang_frame": blockedInLibrary(st), "stacks": st})
+				fmt.Println(string(out))
+				os.Exit(3)
+			}()
+		}
 		if !runCase(def, c, cs) {
 			return 2
 		}
@@ -305,7 +357,7 @@ func Main(args []string) int {
 		fmt.Sscan(args[5], &from)
 		out := args[6]
 		c := newCtx(args[2])
-		c.shard, c.n = shard, n
+		c.shard, c.n, c.from = shard, n, from
 		upto := int64(-1)
 		if s := os.Getenv("VERIF_UPTO"); s != "" {
 			fmt.Sscan(s, &upto)
@@ -325,6 +377,7 @@ func Main(args []string) int {
 		var cases int64
 		// watchdog
 		go func() {
+			gcDone := int64(-1)
 			for {
 				time.Sleep(time.Second)
 				wmu.Lock()
@@ -334,8 +387,17 @@ func Main(args []string) int {
 				if def.meta.LongCases {
 					limit = 6 * 3600
 				}
+				if idx >= 0 && idx != gcDone && time.Now().Unix()-st > 20 && !def.meta.LongCases {
+					// the runtime stamps the wait time of parked goroutines during a collection: force one early in a
+					// long case so that the dump taken at the watchdog limit shows how long each goroutine has been parked
+					gcDone = idx
+					runtime.GC()
+				}
 				if idx >= 0 && time.Now().Unix()-st > limit {
-					writeOut(out, c.snapshot(def.meta, shard, n, cases, idx, false, idx))
+					wo := c.snapshot(def.meta, shard, n, cases, idx, false, idx)
+					wo.HangStacks = allStacks()
+					wo.HangFrame = blockedInLibrary(wo.HangStacks)
+					writeOut(out, wo)
 					os.Exit(3)
 				}
 			}
@@ -392,6 +454,51 @@ func Main(args []string) int {
 	}
 	fmt.Fprintln(os.Stderr, "unknown command", args[0])
 	return 2
+}
+
+func allStacks() string {
+	buf := make([]byte, 1<<20)
+	n := runtime.Stack(buf, true)
+	return string(buf[:n])
+}
+
+var goroutineHeader = regexp.MustCompile(`^goroutine \d+ \[([^\],]+)(?:, (\d+) minutes)?(?:, locked to thread)?\]:`)
+
+// blockedInLibrary inspects a full goroutine dump taken when a case exceeded the watchdog. It returns the library
+// function in which some goroutine has been parked for at least a minute (Go prints the wait time of a blocked
+// goroutine in minutes) provided no other goroutine was running or runnable at that moment — i.e. the process was
+// waiting, not computing. It returns "" when the case is merely slow (something is running) or when no goroutine is
+// parked inside the repository's own packages.
+func blockedInLibrary(dump string) string {
+	const mod = "github.com/aml-org/amf-custom-validator/"
+	blocks := strings.Split(dump, "\n\n")
+	frame := ""
+	for i, b := range blocks {
+		m := goroutineHeader.FindStringSubmatch(b)
+		if m == nil {
+			continue
+		}
+		state := m[1]
+		if i == 0 {
+			continue // the watchdog goroutine itself (the caller of runtime.Stack is printed first)
+		}
+		if state == "running" || state == "runnable" {
+			return ""
+		}
+		if m[2] == "" || frame != "" {
+			continue
+		}
+		for _, l := range strings.Split(b, "\n") {
+			if strings.HasPrefix(l, mod+"internal/") || strings.HasPrefix(l, mod+"pkg/") {
+				if j := strings.Index(l, "("); j > 0 {
+					l = l[:j]
+				}
+				frame = strings.TrimPrefix(l, mod)
+				break
+			}
+		}
+	}
+	return frame
 }
 
 // runCase runs one case; a panic that escapes the check's own protected calls
